@@ -599,13 +599,13 @@ theorem dget_dset {V : Type} (m : List (Str × V)) (a b : Str) (v : V) :
       · simp [h2]
 
 /-- `_canonical_keys` holds, for every key (up to case), the spelling cited last -/
-def CanonInv (st : St) : Prop := ∀ key, dget st.canonical (lower key) = lastSpelling st.citations key
+def CanonInv (st : St) : Prop := ∀ key, dget st.canonical (lowerPy key) = lastSpelling st.citations key
 
 theorem lastSpelling_snoc (before : List Str) (k key : Str) :
-    lastSpelling (before ++ [k]) key = if lower k = lower key then some k else lastSpelling before key := by
+    lastSpelling (before ++ [k]) key = if lowerPy k = lowerPy key then some k else lastSpelling before key := by
   simp only [lastSpelling, List.reverse_append, List.reverse_cons, List.reverse_nil, List.nil_append,
     List.singleton_append, List.find?_cons]
-  by_cases h : lower k = lower key <;> simp [h]
+  by_cases h : lowerPy k = lowerPy key <;> simp [h]
 
 /-- the report a key causes, given the keys cited before it -/
 def keyReports (ctx : Ctx) (before : List Str) (k : Str) : List Report :=
@@ -1214,7 +1214,7 @@ theorem citeKey_erase (c c' : Ctx) (hc : c.filename = c'.filename) (a b : St) (k
   simp only [eraseLoc, St.mk.injEq] at h
   obtain ⟨rfl, rfl, rfl, rfl, rfl, h6⟩ := h
   simp only [citeKey, report, eraseLoc]
-  cases dget a5 (lower k) with
+  cases dget a5 (lowerPy k) with
   | none => simp [h6]
   | some ex => by_cases hne : k = ex <;> simp [hne, h6, unlocated_mkError _ c c' hc]
 
@@ -1448,5 +1448,260 @@ def demoFS : FS := fsOf [
                     "\\bibdata{x,y}".toList]),
   ("u.aux".toList, ["\\citation{b}".toList, "\\@input{v.aux}".toList, "\\bibdata{z}".toList]),
   ("v.aux".toList, ["\\citation{a}{c}".toList, "\\citationx{q}".toList])]
+
+
+/-! ## 9. an `\@input` file that cannot be opened -/
+
+/-- what a nested read of `r = (events read, file that could not be opened)` returns from `st` -/
+def nestedResult (st : St) (r : List Event × Option Path) : Except Abort St :=
+  match r.2 with
+  | some m => .error ⟨.cannotOpen m, (run st r.1).reports⟩
+  | none => .ok (run st r.1)
+
+theorem run_withCtx_reports (st : St) (x : Option Ctx) (evs : List Event) :
+    (run (withCtx st x) evs).reports = (run st evs).reports := by
+  rw [run_withCtx]
+
+/-- a list of lines, reading stops at the first include that cannot be opened -/
+theorem parseLinesM_eq (inp : St → Path → Except Abort St) (sub : Path → List Event × Option Path)
+    (p : Path) (Q : Path → Prop)
+    (hinp : ∀ q st c0, Q q → st.context = some c0 → inp st q = nestedResult st (sub q)) :
+    ∀ (ls : List Str) (n : Nat) (st : St) (c : Ctx), st.context = some c → c.filename = p →
+      (∀ q ∈ inputsOf ls, Q q) →
+      (∀ m, (lineEventsM sub p ls n).2 = some m →
+        parseLines inp ls n st = .error ⟨.cannotOpen m, (run st (lineEventsM sub p ls n).1).reports⟩) ∧
+      ((lineEventsM sub p ls n).2 = none →
+        ∃ c' : Ctx, c'.filename = p ∧
+          parseLines inp ls n st = .ok (withCtx (run st (lineEventsM sub p ls n).1) (some c'))) := by
+  intro ls
+  induction ls with
+  | nil =>
+    intro n st c hc hp _
+    refine ⟨fun m h => by simp [lineEventsM] at h, fun _ => ⟨c, hp, ?_⟩⟩
+    simp [parseLines, lineEventsM, withCtx_self st _ hc]
+  | cons l ls ih =>
+    intro n st c hc hp hQ
+    have hQ' : ∀ q' ∈ inputsOf ls, Q q' := fun q' hq' => hQ q' (inputsOf_subset_cons l ls q' hq')
+    simp only [parseLines]
+    rw [parseLine_eq inp st c hc l n]
+    cases hcl : classify l with
+    | input q =>
+      have hq : Q q := hQ q (by rw [inputsOf_cons_input l ls q hcl]; simp)
+      simp only [lineEventsM, hcl]
+      rw [hinp q _ _ hq (withCtx_context _ _)]
+      rcases hsub : sub q with ⟨evs, _ | m⟩
+      · -- the included file was read completely
+        simp only [nestedResult]
+        obtain ⟨ih1, ih2⟩ := ih (n + 1) (run (withCtx st (some ⟨c.filename, some n, some (strip l)⟩)) evs)
+          ⟨c.filename, some n, some (strip l)⟩ (by rw [run_context]) hp hQ'
+        constructor
+        · intro m hm
+          rw [ih1 m hm, hp]
+          simp only [run_cons, run_append, run_withCtx, withCtx_reports, applyEvent]
+        · intro hn
+          obtain ⟨c', hc', h⟩ := ih2 hn
+          refine ⟨c', hc', ?_⟩
+          rw [h, hp]
+          simp only [run_cons, run_append, run_withCtx, withCtx_withCtx, applyEvent]
+      · -- a file could not be opened inside the include
+        simp only [nestedResult]
+        constructor
+        · intro m' hm'
+          injection hm' with hm'
+          subst hm'
+          rw [hp]
+          simp only [run_cons, run_withCtx, withCtx_reports, applyEvent]
+        · intro hn; cases hn
+    | citation keys =>
+      simp only [lineEventsM, hcl]
+      obtain ⟨ih1, ih2⟩ := ih (n + 1) (withCtx (applyEvent st ⟨c.filename, n, strip l, .citation keys⟩)
+          (some ⟨c.filename, some n, some (strip l)⟩))
+        ⟨c.filename, some n, some (strip l)⟩ rfl hp hQ'
+      constructor
+      · intro m hm
+        rw [ih1 m hm, hp]
+        simp only [run_cons, run_withCtx, withCtx_reports]
+      · intro hn
+        obtain ⟨c', hc', h⟩ := ih2 hn
+        refine ⟨c', hc', ?_⟩
+        rw [h, hp]
+        simp only [run_cons, run_withCtx, withCtx_withCtx]
+    | bibstyle s =>
+      simp only [lineEventsM, hcl]
+      obtain ⟨ih1, ih2⟩ := ih (n + 1) (withCtx (applyEvent st ⟨c.filename, n, strip l, .bibstyle s⟩)
+          (some ⟨c.filename, some n, some (strip l)⟩))
+        ⟨c.filename, some n, some (strip l)⟩ rfl hp hQ'
+      constructor
+      · intro m hm
+        rw [ih1 m hm, hp]
+        simp only [run_cons, run_withCtx, withCtx_reports]
+      · intro hn
+        obtain ⟨c', hc', h⟩ := ih2 hn
+        refine ⟨c', hc', ?_⟩
+        rw [h, hp]
+        simp only [run_cons, run_withCtx, withCtx_withCtx]
+    | bibdata names =>
+      simp only [lineEventsM, hcl]
+      obtain ⟨ih1, ih2⟩ := ih (n + 1) (withCtx (applyEvent st ⟨c.filename, n, strip l, .bibdata names⟩)
+          (some ⟨c.filename, some n, some (strip l)⟩))
+        ⟨c.filename, some n, some (strip l)⟩ rfl hp hQ'
+      constructor
+      · intro m hm
+        rw [ih1 m hm, hp]
+        simp only [run_cons, run_withCtx, withCtx_reports]
+      · intro hn
+        obtain ⟨c', hc', h⟩ := ih2 hn
+        refine ⟨c', hc', ?_⟩
+        rw [h, hp]
+        simp only [run_cons, run_withCtx, withCtx_withCtx]
+    | other =>
+      simp only [lineEventsM, hcl]
+      obtain ⟨ih1, ih2⟩ := ih (n + 1) (withCtx (applyEvent st ⟨c.filename, n, strip l, .other⟩)
+          (some ⟨c.filename, some n, some (strip l)⟩))
+        ⟨c.filename, some n, some (strip l)⟩ rfl hp hQ'
+      constructor
+      · intro m hm
+        rw [ih1 m hm, hp]
+        simp only [run_cons, run_withCtx, withCtx_reports]
+      · intro hn
+        obtain ⟨c', hc', h⟩ := ih2 hn
+        refine ⟨c', hc', ?_⟩
+        rw [h, hp]
+        simp only [run_cons, run_withCtx, withCtx_withCtx]
+
+/-- `parse_file` on an acyclic inclusion of depth ≤ `d` whose files may be missing -/
+theorem parseFileM_eq (fs : FS) : ∀ (d fuel : Nat) (q : Path) (st : St) (tl : Bool),
+    depthOk fs d q = true → d ≤ fuel →
+    (∀ m, (eventsUntilMissing fs d q).2 = some m →
+      parseFile fs fuel st q tl = .error ⟨.cannotOpen m, (run st (eventsUntilMissing fs d q).1).reports⟩) ∧
+    ((eventsUntilMissing fs d q).2 = none →
+      ∃ c' : Ctx, c'.filename = q ∧
+        parseFile fs fuel st q tl =
+          finish st.context tl (withCtx (run st (eventsUntilMissing fs d q).1) (some c'))) := by
+  intro d
+  induction d with
+  | zero => intro fuel q st tl h; simp [depthOk] at h
+  | succ d ih =>
+    intro fuel q st tl hd hle
+    obtain ⟨f, rfl⟩ : ∃ f, fuel = f + 1 := ⟨fuel - 1, by omega⟩
+    rw [depthOk_succ] at hd
+    cases hfs : fs q with
+    | none =>
+      simp only [eventsUntilMissing, hfs, parseFile]
+      refine ⟨fun m hm => ?_, fun hn => by cases hn⟩
+      injection hm with hm
+      subst hm
+      rfl
+    | some lines =>
+      simp only [hfs, List.all_eq_true] at hd
+      have hinp : ∀ q' (st' : St) (c0 : Ctx), depthOk fs d q' = true → st'.context = some c0 →
+          (fun s p => parseFile fs f s p false) st' q' = nestedResult st' (eventsUntilMissing fs d q') := by
+        intro q' st' c0 hq' hc0
+        obtain ⟨h1, h2⟩ := ih f q' st' false hq' (by omega)
+        unfold nestedResult
+        cases hm : (eventsUntilMissing fs d q').2 with
+        | some m => simp only [h1 m hm]
+        | none =>
+          obtain ⟨c', _, h⟩ := h2 hm
+          simp only [h, hc0, finish_some, withCtx_withCtx]
+          rw [withCtx_self]
+          rw [run_context, hc0]
+      obtain ⟨h1, h2⟩ := parseLinesM_eq (fun s p => parseFile fs f s p false) (eventsUntilMissing fs d) q
+        (fun q' => depthOk fs d q' = true) hinp lines 1 (withCtx st (some (Ctx.new q))) (Ctx.new q)
+        rfl rfl hd
+      simp only [eventsUntilMissing, hfs, parseFile]
+      constructor
+      · intro m hm
+        rw [h1 m hm, run_withCtx_reports]
+      · intro hn
+        obtain ⟨c', hc', h⟩ := h2 hn
+        refine ⟨c', hc', ?_⟩
+        rw [h]
+        simp only [run_withCtx, withCtx_withCtx]
+
+/-- when no file is missing, reading until the first missing file reads everything -/
+theorem lineEventsM_closed (sub : Path → List Event) (subM : Path → List Event × Option Path) (p : Path)
+    (ls : List Str) (n : Nat) (h : ∀ q ∈ inputsOf ls, subM q = (sub q, none)) :
+    lineEventsM subM p ls n = (lineEvents sub p ls n, none) := by
+  induction ls generalizing n with
+  | nil => rfl
+  | cons l ls ih =>
+    have ih' := ih (n + 1) (fun q hq => h q (inputsOf_subset_cons l ls q hq))
+    simp only [lineEventsM, lineEvents]
+    cases hcl : classify l with
+    | input q =>
+      have := h q (by rw [inputsOf_cons_input l ls q hcl]; simp)
+      simp only [this, ih']
+    | citation _ => simp only [ih', List.nil_append]
+    | bibstyle _ => simp only [ih', List.nil_append]
+    | bibdata _ => simp only [ih', List.nil_append]
+    | other => simp only [ih', List.nil_append]
+
+theorem eventsUntilMissing_closed (fs : FS) : ∀ (d : Nat) (p : Path), closedDepth fs d p = true →
+    eventsUntilMissing fs d p = (events fs d p, none) := by
+  intro d
+  induction d with
+  | zero => intro p h; simp [closedDepth] at h
+  | succ d ih =>
+    intro p h
+    simp only [closedDepth] at h
+    cases hfs : fs p with
+    | none => simp [hfs] at h
+    | some lines =>
+      simp only [hfs, List.all_eq_true] at h
+      simp only [eventsUntilMissing, events, hfs]
+      exact lineEventsM_closed (events fs d) (eventsUntilMissing fs d) p lines 1 (fun q hq => ih q (h q hq))
+
+/-- The first `\@input` file that cannot be opened ends the parse with the I/O error naming it;
+what has been captured by then are the reports of the events read before. -/
+theorem parse_missing (fs : FS) (d fuel : Nat) (p m : Path) (hd : depthOk fs d p = true) (hle : d ≤ fuel)
+    (hm : (eventsUntilMissing fs d p).2 = some m) :
+    parse fs fuel p = .error ⟨.cannotOpen m, reports (eventsUntilMissing fs d p).1⟩ := by
+  unfold parse
+  rw [(parseFileM_eq fs d fuel p St.init true hd hle).1 m hm]
+  have := (final_spec (eventsUntilMissing fs d p).1).2.2.2
+  rw [final] at this
+  rw [this]
+
+
+/-- the name reported as missing is not in the file system -/
+theorem lineEventsM_missing (fs : FS) (subM : Path → List Event × Option Path) (p : Path)
+    (hsub : ∀ q m, (subM q).2 = some m → fs m = none) (ls : List Str) (n : Nat) (m : Path)
+    (h : (lineEventsM subM p ls n).2 = some m) : fs m = none := by
+  induction ls generalizing n with
+  | nil => simp [lineEventsM] at h
+  | cons l ls ih =>
+    simp only [lineEventsM] at h
+    cases hcl : classify l with
+    | input q =>
+      simp only [hcl] at h
+      rcases hs : subM q with ⟨evs, _ | m'⟩
+      · simp only [hs] at h; exact ih (n + 1) h
+      · simp only [hs] at h
+        injection h with h
+        subst h
+        exact hsub q m' (by rw [hs])
+    | citation _ => simp only [hcl] at h; exact ih (n + 1) h
+    | bibstyle _ => simp only [hcl] at h; exact ih (n + 1) h
+    | bibdata _ => simp only [hcl] at h; exact ih (n + 1) h
+    | other => simp only [hcl] at h; exact ih (n + 1) h
+
+theorem eventsUntilMissing_missing (fs : FS) : ∀ (d : Nat) (p m : Path),
+    (eventsUntilMissing fs d p).2 = some m → fs m = none := by
+  intro d
+  induction d with
+  | zero => intro p m h; simp [eventsUntilMissing] at h
+  | succ d ih =>
+    intro p m h
+    simp only [eventsUntilMissing] at h
+    cases hfs : fs p with
+    | none =>
+      simp only [hfs] at h
+      injection h with h
+      subst h
+      exact hfs
+    | some lines =>
+      simp only [hfs] at h
+      exact lineEventsM_missing fs (eventsUntilMissing fs d) p (fun q m' hm' => ih q m' hm') lines 1 m h
 
 end Pybtex.Aux
